@@ -7,6 +7,10 @@ from .contracts import DB
 from . import verify, solve
 
 
+def _call(k):
+    return main.work(k)
+
+
 def main():
     import contracts
     contracts.load_all()
@@ -36,13 +40,22 @@ def main():
             if res.error:
                 print("   ERROR:", res.error)
                 bad += 1
-            jobs = []
-            for i, ob in enumerate(res.obligations):
-                if ob.meta.get("trivial"):
-                    continue
-                jobs.append(("%d:%s" % (i, ob.name), solve.build_query(ob, res.str_axioms), 10000, True))
             t0 = time.time()
-            out = solve.discharge(jobs)
+            todo = [(i, ob) for i, ob in enumerate(res.obligations) if not ob.meta.get("trivial")]
+            out = {}
+            import multiprocessing as mp
+            def work(k):
+                i, ob = todo[k]
+                return solve.decide(ob, res.str_axioms, 10000, True, name="%d:%s" % (i, ob.name))[:6]
+            main.work = work
+            if len(todo) > 4:
+                with mp.get_context("fork").Pool(16) as pool:
+                    for r in pool.imap_unordered(_call, range(len(todo))):
+                        out[r[0]] = r
+            else:
+                for k in range(len(todo)):
+                    r = work(k)
+                    out[r[0]] = r
             for name, r in sorted(out.items(), key=lambda kv: int(kv[0].split(":")[0])):
                 tot += 1
                 if r[1] != "unsat":
